@@ -243,7 +243,10 @@ def build_spec(task, viol):
         st["TIMEZONE"] = a["implicit_tz"]
     if a.get("time_as_period"):
         st["RETURN_TIME_AS_PERIOD"] = True
-    return {"task": task["name"], "witness": w, "clock": C.clock_from_witness(w), "shape": shape,
+    clock = C.clock_from_witness(w)
+    if clock is None and a.get("implicit_tz") is not None:
+        clock = [2000, 1, 1, 0, 0, 0, 0]       # the reference IS the clock: the replay is frozen at the instant the oracle uses
+    return {"task": task["name"], "witness": w, "clock": clock, "shape": shape,
             "implicit_tz": a.get("implicit_tz"), "time_as_period": bool(a.get("time_as_period")),
             "call": {"string": render(phrase_parts(shape), w), "languages": ["en"], "settings": st}}
 
